@@ -51,6 +51,7 @@ func main() {
 	case "rpc":
 		runRPC(seed, tier)
 		runRPCSender(seed, tier)
+		runRPCUnaryDirect(seed)
 	case "pd":
 		runPD(seed, tier)
 	case "e2e":
